@@ -770,6 +770,9 @@ class Executor(object):
         return self.eval(sl, st, ctx)
 
     def subscript(self, v, idx, st, ctx, node=None):
+        if isinstance(v, ModuleRef):
+            # an entry of a module-level container: state that survives calls (and systems) -- whatever an earlier call stored there
+            return Opaque("module_state")
         try:
             return B.subscript(self, v, idx, st, ctx, node)
         except B.Havoc as h:
